@@ -355,9 +355,14 @@ func allHooks(maxArgs int) [][]string {
 }
 
 func main() {
+	if os.Getenv("C20_CONFIG_CHILD") == "1" {
+		vdump = filepath.Join(ev.VerifDir(), "bin", "vdump")
+		fileChild()
+		return
+	}
 	r := ev.New("C20", "exploration",
 		"hook = dump program + every argument sequence of length <=2 (quick) / <=3 (thorough) over {%url,%mimetype,%supertype,%subtype,x%url,%url%url,%URL,--,\"\"} plus hooks whose program is a placeholder; "+
-			"x 22 hostile links (one the path of an executable, four exactly a placeholder, one with userinfo) x 7 media types (three made of placeholder-like tokens) x 7 entry points (o on a note and on a video, number+Enter for a body link, a named and an unnamed attachment, p and b on an actor; every slot has its own link), each page's entry points pressed in sequence and again in reverse order under one configuration object, through ui.State.Update with a real exec; "+
+			"x 22 hostile links (one the path of an executable, four exactly a placeholder, one with userinfo) x 7 media types (three made of placeholder-like tokens) x 7 entry points (o on a note and on a video, number+Enter for a body link, a named and an unnamed attachment, p and b on an actor; every slot has its own link), each page's entry points pressed in sequence and again in reverse order under one configuration object, through ui.State.Update with a real exec; plus 12 hooks with white space around or instead of arguments loaded from a real config.toml by servitor's own start-up code in a child process; "+
 			"distinct_nontrivial = cases with at least one argument where a process is started")
 	vdump = filepath.Join(ev.VerifDir(), "bin", "vdump")
 	if _, err := os.Stat(vdump); err != nil {
@@ -375,7 +380,11 @@ func main() {
 			Case hookCase `json:"case"`
 		}
 		ev.LoadReplay(*ev.FlagReplay, &d)
-		runGroup(r, d.Case.Link, d.Case.MediaType, [][]string{d.Case.Hook}, &d.Case)
+		if d.Case.Entry == "from-config-file" {
+			fromFilePart(r, scratch) // small: run it whole
+		} else {
+			runGroup(r, d.Case.Link, d.Case.MediaType, [][]string{d.Case.Hook}, &d.Case)
+		}
 		r.Distinct("a")
 		r.Distinct("b")
 		r.Finish()
@@ -407,6 +416,7 @@ func main() {
 		r.FinishShard(*ev.FlagOut)
 	}
 	par.RunShards(r, 16, 0)
+	fromFilePart(r, scratch)
 	r.Extra["hooks"] = len(hooks)
 	r.Extra["links"] = len(links)
 	r.Extra["media_types"] = len(mediaTypes)
